@@ -94,3 +94,13 @@ package edns
 //@   assert at return#1: result == nil && lastret("internal/ecs.Build", 1) != nil
 //@   assert at return#2: result == lastret("internal/ecs.Build") && lastret("internal/ecs.Build", 1) == nil
 //@   assert at call internal/ecs.Build#1: arg0 == cfg.ECS.Enabled && arg1 == cfg.ECS.ForwardV4Max && arg2 == cfg.ECS.ForwardV6Max && arg3 == cfg.ECS.MinScopeV4 && arg4 == cfg.ECS.MinScopeV6 && arg5 == cfg.ECS.ClientNetworks
+//@
+//@ # ---- C06: the overflow test never tells the response it is uncompressed (it measures a copy) and reports overflow
+//@ # only if the message's own length exceeds the limit
+//@ func udpOverflow
+//@   abstract
+//@   nosafety all pre
+//@   assert at call (*github.com/miekg/dns.Msg).Len#1: arg0 != m
+//@   assert at call (*github.com/miekg/dns.Msg).Len#2: arg0 == m
+//@   assert at return#1: !result && lastret("(*github.com/miekg/dns.Msg).Len#1") <= limit
+//@   assert at return#2: result == (lastret("(*github.com/miekg/dns.Msg).Len#2") > limit)
